@@ -475,6 +475,7 @@ class Recorder:
         for nm in ("rmdir", "truncate", "ftruncate", "link", "symlink",
                    "write", "fdatasync", "sync"):
             setattr(fos, nm, FakeOs._other(nm))
+        self.fos = fos
         self._saved = (fcm.__dict__.get("open", None), fcm.os)
         fcm.open = fake_open
         fcm.os = fos
@@ -828,6 +829,22 @@ def full(R, k):
 
 
 REOPEN = "<reopen>"
+PRE = "s0"        # first component of a store root that exists (durably) before the store is opened
+
+
+def precreate(rec, root, R):
+    """an existing, durable directory below the base (made by the harness through the recorder, so that it is part
+    of the trace): the store root, or the directory a fresh store root is created in"""
+    s0 = os.path.join(root, PRE)
+    if R.split("/")[0] == PRE and not os.path.isdir(s0):
+        rec.fos.mkdir(s0)
+        fd = os.open(root, os.O_RDONLY)
+        rec.fd_dir[fd] = ""
+        try:
+            rec.fos.fsync(fd)
+        finally:
+            rec.fd_dir.pop(fd, None)
+            os.close(fd)
 
 
 def real_run(ctx, sets, bufsize, kill_at=None, root=None, snapshot=True, R="", fault_at=None):
@@ -846,6 +863,7 @@ def real_run(ctx, sets, bufsize, kill_at=None, root=None, snapshot=True, R="", f
     err = None
     where = os.path.join(root, R) if R else root
     try:
+        precreate(rec, root, R)
         store = KeyValueStorage(where)
         for k, v in sets:
             if k == REOPEN:
@@ -1022,6 +1040,7 @@ def explore(ctx, drv, ops, snaps, actions, sets_json, bufsize, sk, flag, eff_buf
     todo = [(k, v) for k, v in actions if v != GET]
     wf = True
     opening = True
+    prelude = 2 if ops[:2] == [f"mkdir:{wpath(PRE)}", "fsyncdir:-"] else 0
     for i, o in enumerate(ops):
         if o.startswith("begin:"):
             opening = False
@@ -1037,7 +1056,7 @@ def explore(ctx, drv, ops, snaps, actions, sets_json, bufsize, sk, flag, eff_buf
                 if mops != rops:
                     ctx.mismatch("Klong.C17.setOps(skeleton) vs recorded system-call trace of KeyValueStorage.set",
                                  dict(case0, set_key=k), shorten(mops), shorten(rops))
-        elif opening and o != "kill":
+        elif opening and o != "kill" and i >= prelude:
             # FileCache/KeyValueStorage.__init__ are modelled as doing nothing to the file system
             ctx.mismatch("store open performs file-system operations (the model's open has none)",
                          dict(case0, op=_short(o, 200)), "no operation before the first set", _short(o, 200))
@@ -1234,6 +1253,7 @@ def schedule_history(ctx, sets0, A, B, bufsize, cap, R="", only=None):
             store = None
             errs = []
             try:
+                precreate(rec, base, R)
                 store = KeyValueStorage(os.path.join(base, R) if R else base)
                 for k, v in sets0:
                     rec.marker(f"begin:{wpath(full(R, k))}:{serialize_obj(expand(v)).hex()}")
@@ -1249,7 +1269,10 @@ def schedule_history(ctx, sets0, A, B, bufsize, cap, R="", only=None):
                         errs.append(e)
                 ta = threading.Thread(target=run_a, daemon=True)
                 ta.start()
-                if not rec.parked.wait(30):
+                waited = 0.0
+                while not rec.parked.wait(0.05) and ta.is_alive() and waited < 30:
+                    waited += 0.05
+                if not rec.parked.is_set():
                     errs.append(TimeoutError("set A never reached the parking point"))
                 try:
                     rec.marker(f"begin:{wpath(full(R, B[0]))}:{serialize_obj(expand(B[1])).hex()}")
@@ -1330,10 +1353,12 @@ def kernel_obligations(ctx, runs, sk, flag):
     for i, r in enumerate(runs):
         lops = [lean_op(o) for o in r["ops"]]
         model = None
-        if r.get("sk") is not None and r.get("sets") is not None:
+        if r.get("sk") is not None and r.get("sets") is not None and None not in lops:
             skl = sk_lean(r["sk"])
             sets = "[" + ", ".join(f"({lpath(k)}, {lean_bytes(serialize_obj(expand(v)).hex())})" for k, v in r["sets"]) + "]"
-            model = f"traceOf .strict {skl} {fl} {r['buf']} init {sets}"
+            npre = next((j for j, o in enumerate(r["ops"]) if o.startswith("begin:")), 0)
+            pre = "[" + ", ".join(lops[:npre]) + "]"
+            model = f"(({pre} : List Op) ++ traceOf .strict {skl} {fl} {r['buf']} (run .strict init {pre}) {sets})"
         if None in lops:
             ctx.obligation(f"run{i}: recorded trace is expressible in the model", False,
                            str([o for o, l in zip(r["ops"], lops) if l is None][:3]))
@@ -1564,9 +1589,9 @@ def run(ctx):
             if s % 2:
                 sets.append((ctx.rng.choice(keys), gen_big_value(ctx.rng)))
             plans.append((sets, None))
-        ROOTS = ["r1", "r1/r2", "r1/r2/store"]          # store roots whose chain does not exist when the store is opened
+        ROOTS = ["r1", PRE + "/r1/r2", "r1/r2/store"]          # store roots whose chain does not exist when the store is opened
         for i, (sets, bufsize) in enumerate(plans):
-            R = c_root.get(i, "")
+            R = c_root.get(i, PRE)
             r = run_sequence(ctx, drv, sets, bufsize, model_sk, bool(flag), cap, R=R)
             if r is not None:
                 runs.append(r)
@@ -1593,21 +1618,21 @@ def run(ctx):
                 sets1 = gen_sets(ctx.rng, ctx.rng.randrange(0, 2), keys) + [(k, v2)]
                 phase2 = [(k, v2)] + gen_sets(ctx.rng, 1, ["n/x/b", "n/b"])
             runs += kill_history(ctx, drv, sets1, phase2, 16 if h % 2 else None, model_sk, bool(flag), cap,
-                                 R=ctx.rng.choice(["", "r1"]))
+                                 R=ctx.rng.choice([PRE, "r1", PRE + "/r1"]))
         # error paths: one transient OSError at each file-system operation of a set of a new key, then a retry
         for h in range(1 if quick else 4):
             k = ctx.rng.choice(["n/x/a", "n/a", "fresh", "p/new"])
             sets0 = gen_sets(ctx.rng, ctx.rng.randrange(0, 2), ["a", "p/a"])
             follow = gen_sets(ctx.rng, ctx.rng.randrange(0, 2), ["n/x/b", "a"])
             runs += fault_history(ctx, drv, sets0, (k, gen_value(ctx.rng)), follow, 16 if h % 2 else None, model_sk,
-                                  bool(flag), cap, R=ctx.rng.choice(["", "r1"]))
+                                  bool(flag), cap, R=ctx.rng.choice([PRE, "r1", PRE + "/r1"]))
         # two-thread schedules: set A (new key) parked before each of its file-system calls while set B completes
         for h in range(2 if quick else 8):
             A = (ctx.rng.choice(["n/x/a", "n/a", "p/new"]), gen_value(ctx.rng))
             sets0 = [("a", gen_value(ctx.rng)), ("p/a", gen_value(ctx.rng))]
             B = [("a", gen_value(ctx.rng)), ("p/a", gen_value(ctx.rng)), (os.path.dirname(A[0]) + "/b", gen_value(ctx.rng)),
                  ("other/b", gen_value(ctx.rng))][(h + ctx.rng.randrange(2)) % 4]
-            schedule_history(ctx, sets0, A, B, None, cap, R=ctx.rng.choice(["", "r1"]))
+            schedule_history(ctx, sets0, A, B, None, cap, R=ctx.rng.choice([PRE, "r1", PRE + "/r1"]))
         small = [r for r in runs if not r.get("big") and not r.get("known")]
         ctx.bump("runs-not-sent-to-kernel-known-finding", len([r for r in runs if r.get("known")]))
         if small:
